@@ -325,9 +325,26 @@ def enc (fmtS nameHex desc obs : String) : Verdict :=
     { model, spec }
   | _, _ => { model := "bad-arg" }
 
+/-- a `[]any` / `[N]any` whose first element is byte-, int- or long-sized stands, by the documented mapping, for a typed
+array — not for the list it was decoded from (the design decision reported as `C02.any-slice-array`): such a
+decoded value is not compared with the document here -/
+partial def anyArrayIn : GoVal → Bool
+  | .slice .iface _ (x :: xs) | .array .iface (x :: xs) =>
+    (match x with
+      | .iface (some (.int .i8 _)) | .iface (some (.int .u8 _)) | .iface (some (.bool _))
+      | .iface (some (.int .i32 _)) | .iface (some (.int .u32 _))
+      | .iface (some (.int .i64 _)) | .iface (some (.int .u64 _)) => true
+      | _ => false) || (x :: xs).any anyArrayIn
+  | .ptr _ (some v) | .iface (some v) => anyArrayIn v
+  | .slice _ _ xs | .array _ xs | .struct _ _ xs => xs.any anyArrayIn
+  | .map _ _ kvs => kvs.any fun kv => anyArrayIn kv.2
+  | _ => false
+
 /-- `c01.rt <file|net> <val|ptr> <name> <T> <V>` (typed universe, same observation as `c02.rt`): the C01 clauses —
 the encoder does not panic, what it emits is a well-formed document holding the documented tree of the value
-under the given root name; what it cannot represent is an error. (The round trip itself is C02's.) -/
+under the given root name; what it cannot represent is an error; and what `Decode` stores from that document
+into a fresh variable of the type stands for the document's tree again (floats by bit pattern). (Equality of the
+Go values is C02's.) -/
 def rtTyped (fmtS nameHex tdesc vdesc obs : String) : Verdict :=
   match parseHex nameHex, GoText.parseType tdesc.toList with
   | some name, some (t, []) =>
@@ -378,7 +395,21 @@ def rtTyped (fmtS nameHex tdesc vdesc obs : String) : Verdict :=
               if n != (if network then [] else name) then some "root name differs"
               else if specAny tr != specAny want then some ("document tree differs: expected " ++ ((specAny want).take 160).toString)
               else if tr.tag != want.tag then some "root tag differs"
-              else none
+              else
+                -- the decoding half on typed targets: what `Decode` stored into a fresh variable of the type stands
+                -- for the same tree (floats by bit pattern) — the values the format assigns to the document
+                let decTok := (kv toks "dec").getD ""
+                if decTok.startsWith "ok:" then
+                  match GoText.parseVal t (decTok.drop 3).toString.toList with
+                  | some (v', []) =>
+                    (match (if anyArrayIn v' then Doc.unk else docTree v') with
+                      | .tree got =>
+                        if specAny got != specAny want || got.tag != want.tag then
+                          some ("decoded value stands for another tree than the document: " ++ ((specAny got).take 120).toString)
+                        else none
+                      | _ => none)
+                  | _ => none
+                else none
       { model, spec }
     | _ => { model := "bad-value" }
   | _, _ => { model := "bad-arg" }
